@@ -1,12 +1,21 @@
 package main
 
 import (
+	"context"
+	"encoding/json"
+	"fmt"
+	"strings"
 	"time"
 
+	el "github.com/hashicorp/eventlogger"
+	"github.com/hashicorp/eventlogger/filters/encrypt"
+
 	"verif/hk"
+	"verif/shapes"
+	"verif/vrt"
 )
 
-const rule = "payload shapes from an explicit grammar, every derivation: a spine of 1..3 (4 thorough) containers {struct value, *struct, []struct, []*struct, map[string]interface{}, map[string]string, Taggable map, Taggable struct, []Taggable map} ending in a leaf {string, []byte, []string, [][]byte, *wrapperspb.StringValue, *wrapperspb.BytesValue} carrying every class tag {none, public, sensitive, secret, each x redact/encrypt/hmac-sha256, unknown class, unknown operation, upper-case spellings} (full tag set at depth 1, a 6-tag cover deeper) or every Taggable key class, with optionally one sibling before or after the spine element at one level (tagged leaf, untagged leaf, untagged map, Taggable map, nested struct): 73k shapes run with the default operations; all shapes of depth <=2 x all 64 override maps over {public, sensitive, secret} x {none, redact, encrypt, hmac} x wrapper {present, absent, failing at its 1st / 2nd call}: 2.3M cases; plus top-level strings/slices, unsettable, nil and zero payloads and the 8 rotation payloads. Types are built at run time (reflect.StructOf with class tags); every leaf carries a unique canary. Oracle from the shape descriptor only (reference classifier written from the package documentation): no canary of a non-public leaf may be readable in the forwarded event (structural walk + JSON rendering; raw, base64 and base64url forms); redacted leaves equal [REDACTED]; an error forwards nothing; rotation payloads are consumed."
+const rule = "payload shapes from an explicit grammar, every derivation: a spine of 1..3 (4 thorough) containers {struct value, *struct, []struct, []*struct, map[string]interface{}, map[string]string, Taggable map, Taggable struct, []Taggable map} ending in a leaf {string, []byte, []string, [][]byte, *wrapperspb.StringValue, *wrapperspb.BytesValue} carrying every class tag {none, public, sensitive, secret, each x redact/encrypt/hmac-sha256, unknown class, unknown operation, upper-case spellings} (full tag set at depth 1, a 6-tag cover deeper) or every Taggable key class, with optionally one sibling before or after the spine element at one level (tagged leaf, untagged leaf, untagged map, Taggable map, nested struct): 73k shapes run with the default operations; all shapes of depth <=2 x all 64 override maps over {public, sensitive, secret} x {none, redact, encrypt, hmac} x wrapper {present, absent, failing at its 1st / 2nd call}: 2.3M cases; plus top-level strings/slices, unsettable, nil and zero payloads and the 8 rotation payloads; plus 2 and 3 concurrent Process calls on one Filter (payloads with untagged maps, a Taggable map), all interleavings within the preemption bound (2 quick / 3 thorough): no canary readable in any forwarded event. Types are built at run time (reflect.StructOf with class tags); every leaf carries a unique canary. Oracle from the shape descriptor only (reference classifier written from the package documentation): no canary of a non-public leaf may be readable in the forwarded event (structural walk + JSON rendering; raw, base64 and base64url forms); redacted leaves equal [REDACTED]; an error forwards nothing; rotation payloads are consumed."
 
 var assumptions = []string{
 	"a value that is redacted where its tag dictated encryption/HMAC is counted (over_redactions) but is not a leak",
@@ -14,6 +23,74 @@ var assumptions = []string{
 	"grammar depth 3 (quick) / 4 (thorough); interface-typed struct fields and typed nils are outside the statement's list of supported shapes",
 }
 
-func extraScenarios(tier string) []string { return nil }
+// ---- concurrent events through one Filter: what the filter keeps between events must not let one
+// event's filtering undo another's ------------------------------------------------------------------
 
-func runExtra(tier string, i int, job hk.Job, deadline time.Time) *hk.Result { return &hk.Result{} }
+type docP struct {
+	M   map[string]interface{}
+	N   map[string]interface{}
+	Sec string `class:"secret"`
+	Pub string `class:"public"`
+}
+
+type tagP map[string]interface{}
+
+func (t tagP) Tags() ([]encrypt.PointerTag, error) {
+	return []encrypt.PointerTag{{Pointer: "/pub", Classification: encrypt.PublicClassification}, {Pointer: "/sec", Classification: encrypt.SecretClassification}}, nil
+}
+
+var concNames = []string{
+	"2 x Process on one Filter, payloads with untagged maps",
+	"3 x Process on one Filter, payloads with untagged maps and a Taggable map",
+}
+
+func extraScenarios(tier string) []string { return concNames }
+
+func concBody(n int) func() string {
+	return func() string {
+		f := &encrypt.Filter{Wrapper: shapes.NewWrapper(5), HmacSalt: []byte("s"), HmacInfo: []byte("i")}
+		outs := make([]*el.Event, n)
+		errs := make([]error, n)
+		for i := 0; i < n; i++ {
+			i := i
+			vrt.GoNamed(fmt.Sprintf("proc%d", i), func() {
+				var p interface{} = &docP{
+					M:   map[string]interface{}{"a": fmt.Sprintf("CANARYconc%dA", i), "deep": map[string]interface{}{"b": []byte(fmt.Sprintf("CANARYconc%dB", i))}},
+					N:   map[string]interface{}{"c": []interface{}{fmt.Sprintf("CANARYconc%dC", i)}},
+					Sec: fmt.Sprintf("CANARYconc%dS", i), Pub: fmt.Sprintf("public-%d", i)}
+				if i == 2 {
+					p = tagP{"pub": "public-2", "sec": "CANARYconc2S", "other": "CANARYconc2O", "m": map[string]interface{}{"x": "CANARYconc2X"}}
+				}
+				outs[i], errs[i] = f.Process(context.Background(), &el.Event{Type: "t", Payload: p})
+			})
+		}
+		vrt.Join()
+		sig := ""
+		for i := 0; i < n; i++ {
+			if errs[i] != nil || outs[i] == nil {
+				vrt.Fail("Process %d failed under concurrent use of the filter: %v", i, errs[i])
+			}
+			b, err := json.Marshal(outs[i].Payload)
+			if err != nil {
+				vrt.Fail("forwarded payload %d cannot be rendered: %v", i, err)
+			}
+			if k := strings.Index(string(b), "CANARY"); k >= 0 {
+				vrt.Fail("event %d was forwarded with unclassified / secret data readable (%q) when another event went through the same filter at the same time", i, string(b)[k:min(k+14, len(b))])
+			}
+			if !strings.Contains(string(b), fmt.Sprintf("public-%d", i)) {
+				vrt.Fail("event %d lost its public value", i)
+			}
+			sig += "ok "
+		}
+		return sig
+	}
+}
+
+func runExtra(tier string, i int, job hk.Job, deadline time.Time) *hk.Result {
+	bound := 2
+	if tier == "thorough" {
+		bound = 3
+	}
+	ex := &vrt.Explorer{Bound: bound, Body: concBody(2 + i)}
+	return hk.ExploreJob(prop, job, deadline, ex, concNames[i])
+}
